@@ -618,7 +618,8 @@ func (c *compiler) arrayOperator(l interface{}, r interface{}, op string) (inter
 			err = fmt.Errorf("cannot append '%v' (%s) as %s value", r, t, elemType)
 		}
 		if err == nil {
-			return reflect.Append(reflect.ValueOf(l), reflect.ValueOf(r)), nil
+			// hand out the slice itself, not the reflect.Value wrapper (whose own methods would be callable from templates)
+			return reflect.Append(reflect.ValueOf(l), reflect.ValueOf(r)).Interface(), nil
 		}
 	default:
 		err = fmt.Errorf("unkown operator (%s) on %T and %T ", op, l, r)
